@@ -9,6 +9,7 @@ import IwModel.Lemmas.HMapRef
 import IwModel.Lemmas.Arr
 import IwModel.Lemmas.Ring
 import IwModel.Lemmas.RingRef
+import IwModel.Lemmas.Sort
 /-!
 C18: containers behave as their plain reference models for every call sequence.
 
@@ -307,6 +308,59 @@ theorem plist_handed_out (l : PList α) (wf : l.Wf) (i : Nat) :
 
 example : (ulRun (0 : Nat) [.push 1, .unshift 2, .insert 1 3, .remove 0] (UList.create 0 2)).map (·.window) = some [3, 1] := by
   decide
+
+/-- `iwulist_sort` with a total, transitive comparator: the live window becomes a **sorted permutation** of
+itself; `start`, `num`, the allocation size and every cell outside the window are untouched -/
+theorem ulist_sort_sorted_perm (le : α → α → Bool) (h : TotalPreorder le) (l : UList α) (wf : l.Wf) :
+    (l.sort le).Wf ∧ (l.sort le).start = l.start ∧ (l.sort le).num = l.num ∧ (l.sort le).anum = l.anum ∧
+    (l.sort le).window.Pairwise (fun a b => le a b = true) ∧ (l.sort le).window.Perm l.window ∧
+    (l.sort le).arr.take l.start = l.arr.take l.start ∧
+    (l.sort le).arr.drop (l.start + l.num) = l.arr.drop (l.start + l.num) := by
+  have hl := UList.window_length l wf
+  have hw : (UList.sortList le l.window).length = l.num := by rw [(sortList_perm le _).length_eq, hl]
+  obtain ⟨s1, s2, s3, s4⟩ := splice_window l.arr l.start l.num _ wf.1 hw
+  have ew : (l.sort le).window = UList.sortList le l.window := s1
+  refine ⟨⟨?_, ?_⟩, rfl, rfl, s2, ?_, ?_, s3, s4⟩
+  · show l.start + l.num ≤ (l.arr.take l.start ++ UList.sortList le l.window ++ l.arr.drop (l.start + l.num)).length
+    rw [s2]; exact wf.1
+  · show 0 < (l.arr.take l.start ++ UList.sortList le l.window ++ l.arr.drop (l.start + l.num)).length
+    rw [s2]; exact wf.2
+  · rw [ew]; exact sortList_sorted h _
+  · rw [ew]; exact sortList_perm le _
+
+/-- `iwlist_sort`: same statement for the list of owned items (the items themselves are only permuted: none
+is freed, copied or lost) -/
+theorem plist_sort_sorted_perm (le : α → α → Bool) (h : TotalPreorder le) (l : PList α) (wf : l.Wf) :
+    (l.sort le).Wf ∧ (l.sort le).start = l.start ∧ (l.sort le).num = l.num ∧ (l.sort le).anum = l.anum ∧
+    (l.sort le).window.Pairwise (fun a b => le a b = true) ∧ (l.sort le).window.Perm l.window ∧
+    (l.sort le).arr.take l.start = l.arr.take l.start ∧
+    (l.sort le).arr.drop (l.start + l.num) = l.arr.drop (l.start + l.num) := by
+  have hl := PList.window_length l wf
+  have hw : (UList.sortList le l.window).length = l.num := by rw [(sortList_perm le _).length_eq, hl]
+  obtain ⟨s1, s2, s3, s4⟩ := splice_window l.arr l.start l.num _ wf.1 hw
+  have ew : (l.sort le).window = UList.sortList le l.window := s1
+  refine ⟨⟨?_, ?_⟩, rfl, rfl, s2, ?_, ?_, s3, s4⟩
+  · show l.start + l.num ≤ (l.arr.take l.start ++ UList.sortList le l.window ++ l.arr.drop (l.start + l.num)).length
+    rw [s2]; exact wf.1
+  · show 0 < (l.arr.take l.start ++ UList.sortList le l.window ++ l.arr.drop (l.start + l.num)).length
+    rw [s2]; exact wf.2
+  · rw [ew]; exact sortList_sorted h _
+  · rw [ew]; exact sortList_perm le _
+
+/-- the code of `sort_r` (libc's `qsort_r`) is not modelled; this is why that loses nothing: with an
+antisymmetric comparator **any** sorted permutation of the window is the one the model computes, and the
+byte-string comparator of the tie (`memcmp`, shorter first) is total, transitive and antisymmetric -/
+theorem sort_result_unique (le : α → α → Bool) (h : TotalPreorder le)
+    (anti : ∀ a b, le a b = true → le b a = true → a = b) (l : UList α) (p : PList α) (wl : l.Wf) (wp : p.Wf)
+    (w : List α) (hs : w.Pairwise (fun a b => le a b = true)) :
+    (w.Perm l.window → (l.sort le).window = w) ∧ (w.Perm p.window → (p.sort le).window = w) ∧
+    TotalPreorder UList.bytesLe ∧ (∀ a b, UList.bytesLe a b = true → UList.bytesLe b a = true → a = b) := by
+  obtain ⟨_, _, _, _, a1, a2, _⟩ := ulist_sort_sorted_perm le h l wl
+  obtain ⟨_, _, _, _, b1, b2, _⟩ := plist_sort_sorted_perm le h p wp
+  exact ⟨fun pw => sorted_perm_unique anti _ _ a1 hs (a2.trans pw.symm),
+         fun pw => sorted_perm_unique anti _ _ b1 hs (b2.trans pw.symm), bytesLe_preorder, bytesLe_antisymm⟩
+
+example : ((UList.mk [9, 3, 1, 2, 9] 1 3).sort (fun a b => decide (a ≤ b))).arr = [9, 1, 2, 3, 9] := by decide
 
 end LISTS
 
